@@ -290,6 +290,16 @@ class CompilerPassGenerateCode(CompilerPass):
             data.result = IC10Operand(data.constant_value)
             return
 
+        if node.keywords:
+            raise CompilerError(
+                f"Keyword arguments are not supported in calls of {fname}", node
+            )
+        if func_node.args.vararg or len(func_node.args.args) != len(node.args):
+            raise CompilerError(
+                f"Function {fname} expects {len(func_node.args.args)} arguments, but {len(node.args)} were given.",
+                node,
+            )
+
         do_inline = self.data.options.inline_functions and func_data.can_inline
 
         for i, arg in enumerate(node.args):
